@@ -201,7 +201,7 @@ def gen13(ctx, env):
         if r.chance(1, 3):
             pl = pl + b"\0" * r.below(5)
         add("rt13 %s %s %s %02x0303%s%s %d" % (k16(), iv12(), seqr(), typ, u16(len(pl)), pl.hex(), r.below(4)), "rt13:type=%s" % ("known" if typ in TYPES else ("zero" if typ == 0 else "other")))
-    # all-padding inner plaintext (DESIGN section 5 #21): content all zero, type 0
+    # all-padding inner plaintext (DESIGN section 5 #21, repaired by 196ee26): content all zero, type 0
     for L, pad in [(0, 0), (0, 5), (3, 0), (16, 16), (1, 255)]:
         add("rt13 %s %s %s 000303%s%s %d" % (k16(), iv12(), seqr(), u16(L), "00" * L, pad), "rt13:all-zero-inner")
         add("enc13 %s %s %s 0 %s %d" % (k16(), iv12(), seqr(), hexs(b"\0" * L), pad), "enc13:all-zero-inner")
@@ -298,8 +298,8 @@ def oracle(line, a, b):
         return "unprotect reported a length larger than the ciphertext"
     if op in ("nb12", "nb13", "tr12", "tr13", "sq12", "sq13"):
         return None if a == "REJECTS-ALL" else "a mutated / misplaced record was accepted (%s)" % a
-    if a.startswith("ERR outlen="):
-        return "unprotect failed but left %s in *outlen (larger than the ciphertext); tls13_do_recv keeps it in conn->datalen" % a.split("=")[1]
+    if a.startswith("ERR outlen=") and int(a.split("=")[1], 16) != 0:
+        return "unprotect failed but left %s in *outlen; tls13_do_recv keeps it in conn->datalen" % a.split("=")[1]
     if a != b:
         return "implementation differs from the model"
     return None
@@ -366,6 +366,7 @@ def finish(ctx):
         "SM4 block function = Cipher/SM4.v (C04 ties it to src/sm4.c); its inversion law is a premise of the CBC round-trip theorem unless discharged in Props",
         "SM4-GCM seal/open on the model side = Tls/Gcm13.v (SP 800-38D transcription pinned by the RFC 8998 vector); the theorems about TLS 1.3 records are stated for any AEAD with open(seal) = Some",
         "'rejects every single-bit change / other sequence number' is a theorem only as a decision rule (accept => recomputed MAC/tag equals the presented one); the nb*/tr*/sq* ops are fault ENUMERATION on the implementation (test support), decided by the property oracle",
+        "a regression of the repaired defects (#21 *outlen on failure; conn->datalen after a rejected record) is a violation: no alternative behaviour is accepted",
         "tls13_gcm_encrypt precondition padding_len <= 255 (mbuf = malloc(inlen+256)) is not exercised beyond 255",
     ]
     return ctx.finish(level="proof",
